@@ -3,7 +3,7 @@
      the pair-count normalisation   gamma_div[gamma_div < 1] = 1.0 ; e_gamma /= gamma_div[:w_max]
      the normalised autocorrelation rho = e_gamma[:w_max] / e_gamma[0]
      the cumulative tau_int         cumsum(concatenate(([0.5], rho[1:]))) with every entry <= 0.5 replaced by 0.5 + eps. *)
-From Coq Require Import ZArith QArith List Bool Lia ZifyBool.
+From Coq Require Import ZArith QArith Qabs List Bool Lia ZifyBool.
 From PV Require Import Base.QAux Obs.Model Obs.DerivedThm Obs.Gamma Py.Prim Py.Lemmas.
 From PVG Require Import PyGen.
 Import ListNotations.
@@ -80,3 +80,42 @@ Qed.
 Print Assumptions normalisation_tie.
 Print Assumptions rho_tie.
 Print Assumptions n_tauint_tie.
+
+(* ------------------------------------------------------------------ the error of the cumulative tau_int, hep-lat/0306017 eq. (42) *)
+Lemma nth_arr_zip_gen (f : Q -> Q -> Q) a : forall b j, List.length a = List.length b -> (j < List.length a)%nat ->
+  nth j (arr_zip f a b) 0 = f (nth j a 0) (nth j b 0).
+Proof.
+  induction a as [|x a IH]; intros [|y b] j Hl Hj; simpl in *; try lia. destruct j as [|j]; [reflexivity|]. apply IH; lia.
+Qed.
+Lemma nth_map_Q (f : Q -> Q) l j : (j < List.length l)%nat -> nth j (map f l) 0 = f (nth j l 0).
+Proof. revert j; induction l as [|x l IH]; intros [|j] H; simpl in *; try lia; [reflexivity|apply IH; lia]. Qed.
+
+Lemma arr_zip_length_gen (f : Q -> Q -> Q) a : forall b, List.length a = List.length b -> List.length (arr_zip f a b) = List.length a.
+Proof. induction a as [|x a IH]; intros [|y b] H; simpl in *; try lia. rewrite IH; lia. Qed.
+
+Theorem dtauint_tie (nt : list Q) (w : nat) (N : Z) :
+  List.length nt = w ->
+  exists R F, gamma_method_dtauint_radicand nt (Z.of_nat w) N = Ok R /\ gamma_method_dtauint_factor nt (Z.of_nat w) N = Ok F
+              /\ List.length R = w /\ List.length F = w
+              /\ forall i, (i < w)%nat ->
+                   nth i F 0 * nth i F 0 * nth i R 0
+                   == nth i nt 0 * nth i nt 0 * 4 * Qabs (inject_Z (Z.of_nat i) + (1 # 2) - nth i nt 0) / inject_Z N.
+Proof.
+  intro Hl. unfold gamma_method_dtauint_radicand, gamma_method_dtauint_factor.
+  set (grid := arr_add_s (map inject_Z (py_upto (Z.of_nat w))) (1 # 2)).
+  assert (Hg : List.length grid = w) by (unfold grid, arr_add_s; rewrite !map_length, py_upto_seq, map_length, seq_length; reflexivity).
+  unfold py_arr_sub2, py_arr_zip. rewrite Hg, Hl, Nat.eqb_refl. cbn [bind].
+  eexists. eexists. split; [reflexivity|]. split; [reflexivity|].
+  split; [unfold arr_div; rewrite !map_length, arr_zip_length_gen by lia; exact Hg|].
+  split; [unfold arr_mul; rewrite !map_length; exact Hl|].
+  intros i Hi. unfold arr_div, arr_mul.
+  rewrite !nth_map_Q by (rewrite ?map_length, ?arr_zip_length_gen by lia; lia).
+  rewrite nth_arr_zip_gen by lia.
+  unfold grid, arr_add_s. rewrite nth_map_Q by (rewrite ?map_length, ?py_upto_seq, ?map_length, ?seq_length; lia).
+  assert (Hgi : nth i (map inject_Z (py_upto (Z.of_nat w))) 0 = inject_Z (Z.of_nat i)).
+  { rewrite py_upto_seq, map_map. rewrite (nth_map_any (fun x => inject_Z (Z.of_nat x)) (seq 0 w) i 0 O) by (rewrite seq_length; lia).
+    rewrite seq_nth by lia. reflexivity. }
+  rewrite Hgi.
+  change (inject_Z 2) with 2. change (inject_Z 1) with 1. unfold Qdiv. ring.
+Qed.
+Print Assumptions dtauint_tie.
